@@ -287,8 +287,11 @@ func build(d *SDef) *built {
 			b.out.dirs[dd.Name] = &schema.DirectiveDefinition{Description: dd.Desc}
 		}
 	}
-	for i := range d.Dirs {
-		dd := &d.Dirs[i]
+	// (unlisted definitions: the same structs, but not entered into SchemaDefinition.Directives)
+	for i := range d.UDirs {
+		b.out.dirs[d.UDirs[i].Name] = &schema.DirectiveDefinition{Description: d.UDirs[i].Desc}
+	}
+	for _, dd := range append(append([]DirDef{}, d.Dirs...), d.UDirs...) {
 		if dd.Builtin != "" {
 			continue
 		}
